@@ -896,7 +896,11 @@ pub fn info(rng: &mut Rng, be: bool, asz: u8) -> (Vec<u8>, Vec<u8>, Vec<u8>) {
             };
             let mut attrs = Vec::new();
             for _ in 0..rng.usize(6) {
-                let at = if rng.chance(1, 12) { rng.below(0x4000) } else { *rng.pick(AT_POOL) };
+                let at = match rng.below(16) {
+                    0 => rng.below(0x4000),
+                    1..=4 => 1 + rng.below(0x8c), // every standard attribute
+                    _ => *rng.pick(AT_POOL),
+                };
                 let form = if rng.chance(1, 24) { rng.below(0x30) } else { *rng.pick(FORM_POOL) };
                 attrs.push((at, form));
             }
@@ -1007,9 +1011,23 @@ pub fn info(rng: &mut Rng, be: bool, asz: u8) -> (Vec<u8>, Vec<u8>, Vec<u8>) {
 /// every table is generated with the geometry those attributes name. Values are biased to the
 /// boundaries of the address size.
 pub fn info_lists(rng: &mut Rng, be: bool, asz: u8, dwo: bool) -> std::collections::BTreeMap<String, Vec<u8>> {
+    let version = *rng.pick(&[2u16, 3, 4, 4, 4, 5, 5, 5]);
+    info_lists_with(rng, be, asz, dwo, version, None)
+}
+
+/// A skeleton unit and the split unit it names (same version, same DWO id). Returns
+/// (main sections, sections of the DWO file).
+pub fn split_pair(rng: &mut Rng, be: bool, asz: u8) -> (std::collections::BTreeMap<String, Vec<u8>>, std::collections::BTreeMap<String, Vec<u8>>) {
+    let version = *rng.pick(&[4u16, 4, 5, 5, 5]);
+    let id = if rng.chance(1, 8) { rng.interesting() } else { rng.next() };
+    let main = info_lists_with(rng, be, asz, false, version, Some(id));
+    let split = info_lists_with(rng, be, asz, true, version, Some(id));
+    (main, split)
+}
+
+pub fn info_lists_with(rng: &mut Rng, be: bool, asz: u8, dwo: bool, version: u16, dwo_id: Option<u64>) -> std::collections::BTreeMap<String, Vec<u8>> {
     let w = asz as usize;
     let mask = if asz >= 8 { u64::MAX } else { (1u64 << (8 * asz as u32)) - 1 };
-    let version = *rng.pick(&[2u16, 3, 4, 4, 4, 5, 5, 5]);
     let d64 = rng.chance(1, 6);
     let ow = if d64 { 8 } else { 4 };
     let n_addr = 1 + rng.usize(6) as u64;
@@ -1199,6 +1217,10 @@ pub fn info_lists(rng: &mut Rng, be: bool, asz: u8, dwo: bool) -> std::collectio
     if root_ranges {
         root_attrs.push((0x55, rng_form));
     }
+    if version < 5 && dwo_id.is_some() {
+        // DW_AT_GNU_dwo_id
+        root_attrs.push((0x2131, 0x07));
+    }
     ab.uleb(1).uleb(if version >= 5 && dwo && rng.bool() { 0x4a } else { 0x11 }).u8(1);
     for (a, f) in &root_attrs {
         ab.uleb(*a).uleb(*f);
@@ -1220,10 +1242,15 @@ pub fn info_lists(rng: &mut Rng, be: bool, asz: u8, dwo: bool) -> std::collectio
     let tok = a.begin_len(d64);
     a.u16(version);
     if version >= 5 {
-        let ut = if dwo { *rng.pick(&[5u8, 5, 1]) } else { *rng.pick(&[1u8, 1, 4]) };
+        let ut = match (dwo_id, dwo) {
+            (Some(_), true) => 5,
+            (Some(_), false) => 4,
+            (None, true) => *rng.pick(&[5u8, 5, 1]),
+            (None, false) => *rng.pick(&[1u8, 1, 4]),
+        };
         a.u8(ut).u8(asz).word(0, d64);
         if ut == 4 || ut == 5 {
-            a.u64(rng.next());
+            a.u64(dwo_id.unwrap_or_else(|| rng.next()));
         }
     } else {
         a.word(0, d64).u8(asz);
@@ -1278,6 +1305,9 @@ pub fn info_lists(rng: &mut Rng, be: bool, asz: u8, dwo: bool) -> std::collectio
         match *at {
             0x11 => {
                 a.uint(if rng.bool() { 0 } else { addr_val(rng, asz) }, w);
+            }
+            0x2131 => {
+                a.u64(dwo_id.unwrap_or(0));
             }
             0x73 | 0x2133 => emit_ref(&mut a, *f, if rng.chance(1, 10) { rng.interesting() } else { addr_base as u64 }),
             0x74 => emit_ref(&mut a, *f, if rng.chance(1, 10) { rng.interesting() } else { rnglists_base as u64 }),
